@@ -1226,3 +1226,24 @@ def np_isin(interp, st, fr, args, kw):
     st.assume(Forall([ashape[0], bshape[0]], lambda i, k: implies(compare('==', bfn((k,)), afn((i,))), isin(i)), name='isin.intro'))
     st.assume(Forall([ashape[0]], lambda i: implies(isin(i), band(band(compare('<=', 0, wit(i)), compare('<', wit(i), bshape[0])), compare('==', bfn((wit(i),)), afn((i,))))), name='isin.elim'))
     return PureArr((ashape[0],), lambda idx: isin(idx[0]), 'bool')
+
+
+@model('numpy.logspace')
+def np_logspace(interp, st, fr, args, kw):
+    """np.logspace(a, b, n): n >= 1 points 10**(a + k (b - a)/(n - 1)); the end points are 10**a and 10**b."""
+    USED.add('numpy.logspace')
+    a, b = args[0], args[1]
+    n = args[2] if len(args) > 2 else kw.get('num', 50)
+    from .sym import mathfn
+
+    def expo(k):
+        return arith('+', a, arith('/', arith('*', k, arith('-', b, a)), arith('-', n, 1)))
+    fn = lambda idx: ite(compare('==', idx[0], arith('-', n, 1)), ite(compare('==', n, 1), mathfn('pow10', a), mathfn('pow10', b)), mathfn('pow10', expo(idx[0])))
+    # log10 is the inverse of 10**x on the points of the grid
+    st.assume(Forall([n], lambda k: compare('==', mathfn('log10', fn((k,))), ite(compare('==', k, arith('-', n, 1)), ite(compare('==', n, 1), a, b), expo(k))), name='logspace.log10'))
+    for e in (a, b):
+        # 10**log10(t) = t for t > 0 (used when the end points are given as log10 of the range limits)
+        if isinstance(e, Sc) and z3.is_app(e.t) and e.t.decl().name() == 'log10':
+            t = Sc(e.t.arg(0))
+            st.assume(implies(compare('>', t, 0), compare('==', mathfn('pow10', e), t)))
+    return PureArr((n,), fn, 'real')
